@@ -625,7 +625,14 @@ func isEmptyValue(x interface{}) bool {
 
 // source objects for Read
 func (re *rootEnv) drawSource(t *rapid.T, prop string, label string, h *history) (types.Object, string) {
-	switch rapid.IntRange(0, 3).Draw(t, label+"/srckind") {
+	switch rapid.IntRange(0, 4).Draw(t, label+"/srckind") {
+	case 4: // the in-memory result of two in-place writes, not reduced to its durable form: it carries
+		// whatever payload the writes left under null values
+		O := re.emptyObject()
+		re.copyTo(t, prop, genStruct(t, re, label+"/s0"), &O, h)
+		re.copyTo(t, prop, genStruct(t, re, label+"/s1"), &O, h)
+		st.probe("source-written-in-place")
+		return O, "written-in-place"
 	case 0: // restart of an object produced by CopyTo
 		O := re.emptyObject()
 		s := genStruct(t, re, label+"/s")
